@@ -4,6 +4,14 @@ from framework import Job, VERIF
 
 H = os.path.join(VERIF, 'harness', 'vm_step.cpp')
 TUS = ['VM/src/vm.cpp', 'VM/src/program.cpp', 'VM/src/instr.cpp']
+# representation of the VM classes at the pinned commit: the layer-A harnesses build arbitrary states of exactly these fields
+LAYOUT = {
+    'class.Theo::VM': ['i8', 'i32', '%"struct.Theo::Program"', '%"struct.std::vector"', '%"struct.std::vector"', '%"struct.std::set"'],
+    'class.Theo::VM::Activation': ['%"class.Theo::VM"*', 'i32', 'i32', 'i32', 'i32', 'i32'],
+    'struct.Theo::Program': ['%"struct.std::vector"', '%"struct.std::vector"', '%"struct.std::map"', '%"struct.std::map"'],
+    'struct.Theo::Instruction': ['i32', '%union.anon'],
+    'struct.Theo::BreakPoint': ['%"struct.std::string"', 'i32'],
+}
 REPO_FUNCS = r'^(_ZN4Theo|_ZNSt|_ZSt)'   # assertions located in code of /repo or in the container model it calls
 
 
@@ -11,7 +19,7 @@ def cfg(tier):
     if tier == 'thorough':
         d = dict(VM_L=12, VM_DW=16, VM_R=4, VM_MAXFS=4, VM_MAXARG=3, VM_NLOC=3, VM_NSITE=4, VM_FUEL=6, MINISTL_VEC_CAP=5, MINISTL_STR_CAP=12, MINISTL_MAP_CAP=3)
     else:
-        d = dict(VM_L=8, VM_DW=10, VM_R=3, VM_MAXFS=3, VM_MAXARG=2, VM_NLOC=2, VM_NSITE=3, VM_FUEL=4, MINISTL_VEC_CAP=4, MINISTL_STR_CAP=12, MINISTL_MAP_CAP=3)
+        d = dict(VM_L=8, VM_DW=10, VM_R=3, VM_MAXFS=3, VM_MAXARG=2, VM_NLOC=2, VM_NSITE=3, VM_FUEL=2, MINISTL_VEC_CAP=4, MINISTL_STR_CAP=12, MINISTL_MAP_CAP=3)
     return d
 
 
@@ -25,9 +33,11 @@ def job(tier, entry, tags, what, functions, ub_pat=None, timeout=None):
     d = cfg(tier)
     # constant-trip loops (harness, container model) are unrolled by LLVM; CBMC unwinds only the loops of the code under test
     unwind = max(d['VM_MAXFS'], d['VM_NSITE'], d['VM_NLOC'], d['VM_FUEL']) + 2
-    return Job('vm.' + entry, H, entry, tus=TUS, defines=['%s=%s' % kv for kv in d.items()], caps='caps_vm.hpp', unwind=unwind,
+    j = Job('vm.' + entry, H, entry, tus=TUS, defines=['%s=%s' % kv for kv in d.items()], caps='caps_vm.hpp', unwind=unwind,
                tags=tags, ub_pat=ub_pat, timeout=timeout or (1800 if tier == 'thorough' else 600), what=what, bounds=bounds_text(d) + '; unwind %d' % unwind,
                functions=functions)
+    j.layout = LAYOUT
+    return j
 
 
 def step_safe(tier, tags, ub_pat):
